@@ -271,3 +271,113 @@ pub fn gen_c15(out: &mut dyn Write, seed: u64, thorough: bool) {
     writeln!(out, "# designators_3_codewords {}", n3).unwrap();
     writeln!(out, "# charset_bytes {}", 6 * 256).unwrap();
 }
+
+fn rand_char(rng: &mut Rng) -> char {
+    loop {
+        let cp = match rng.below(20) {
+            0..=7 => 0x20 + rng.below(0x5F) as u32,
+            8..=10 => 0xA0 + rng.below(0x60) as u32,
+            11 => rng.below(0x20) as u32,
+            12 => 0x7F + rng.below(0x21) as u32,
+            13..=15 => 0x100 + rng.below(0x2F00) as u32,
+            16..=17 => 0x3000 + rng.below(0xD000) as u32,
+            _ => 0x10000 + rng.below(0x100000) as u32,
+        };
+        if let Some(c) = char::from_u32(cp) {
+            return c;
+        }
+    }
+}
+
+pub fn gen_c14(out: &mut dyn Write, seed: u64, thorough: bool) {
+    let mut rng = Rng::new(seed ^ 0xC14);
+    let enc = |s: &str| -> Result<Vec<u8>, String> {
+        let s2 = s.to_string();
+        match guarded(move || datamatrix::DataMatrix::encode_str(&s2, SymbolList::all())) {
+            Ok(Ok(dm)) => Ok(dm.data_codewords().to_vec()),
+            Ok(Err(e)) => Err(format!("err:{:?}", e)),
+            Err(_) => Err("panic".into()),
+        }
+    };
+    // 1. every scalar value as a one-character string (exhaustive), reported per block of 4096
+    let mut block_fail: Option<String> = None;
+    let mut n_scalars = 0usize;
+    for cp in 0..=0x10FFFFu32 {
+        if let Some(c) = char::from_u32(cp) {
+            n_scalars += 1;
+            let s = c.to_string();
+            match enc(&s) {
+                Ok(cw) => {
+                    let back = dstr(&cw);
+                    let want = format!("ok:{}", hex(s.as_bytes()));
+                    let latin = (0x20..=0x7E).contains(&cp) || (0xA0..=0xFF).contains(&cp);
+                    let has_eci = cw.contains(&241) && cw[0] == 241;
+                    if back != want && block_fail.is_none() {
+                        block_fail = Some(format!("fail:U+{:04X}:decoded:{}", cp, back));
+                    }
+                    if latin == has_eci && block_fail.is_none() {
+                        block_fail = Some(format!("fail:U+{:04X}:eci-choice", cp));
+                    }
+                    // full oracle lines for the BMP low range and a sample elsewhere
+                    if cp < 0x0400 || cp % 4099 == 0 {
+                        writeln!(out, "O strchk {} {} => ok", hex(s.as_bytes()), hex(&cw)).unwrap();
+                    }
+                }
+                Err(e) => {
+                    if block_fail.is_none() {
+                        block_fail = Some(format!("fail:U+{:04X}:{}", cp, e));
+                    }
+                }
+            }
+        }
+        if cp % 4096 == 4095 {
+            writeln!(out, "O oracle {} => ok", block_fail.take().unwrap_or("ok".into())).unwrap();
+        }
+    }
+    // 2. random strings over scalar classes, some in macro shape
+    let n = if thorough { 200000 } else { 20000 };
+    for _ in 0..n {
+        let long = rng.chance(1, 8);
+        let len = rng.below(if long { 60 } else { 10 });
+        let latin_only = rng.chance(1, 3);
+        let mut s: String = (0..len)
+            .map(|_| if latin_only { char::from_u32(*rng.pick(&[0x20 + rng.0 as u32 % 0x5F, 0xA0 + (rng.0 >> 8) as u32 % 0x60])).unwrap() } else { rand_char(&mut rng) })
+            .collect();
+        if rng.chance(1, 6) {
+            let head = if rng.chance(1, 2) { "[)>\x1E05\x1D" } else { "[)>\x1E06\x1D" };
+            s = match rng.below(4) {
+                0 | 1 => format!("{}{}\x1E\x04", head, s),
+                2 => format!("{}{}", head, s),
+                _ => format!("{}\x1E\x04", s),
+            };
+        }
+        match enc(&s) {
+            Ok(cw) => {
+                writeln!(out, "O strchk {} {} => ok", hex(s.as_bytes()), hex(&cw)).unwrap();
+                writeln!(out, "O eq ok:{} {} => ok", hex(s.as_bytes()), dstr(&cw)).unwrap();
+                writeln!(out, "M dstr {} => {}", hex(&cw), dstr(&cw)).unwrap();
+            }
+            Err(e) => {
+                // too long for the largest symbol is the only legitimate refusal
+                let ok = e.contains("TooMuch") && s.len() > 700;
+                writeln!(out, "O oracle {} => ok", if ok { "ok".to_string() } else { format!("fail:encode_str:{}:{}", e, hex(s.as_bytes())) }).unwrap();
+            }
+        }
+    }
+    // 3. the Latin-1 helpers on random byte strings / strings
+    for _ in 0..(if thorough { 50000 } else { 5000 }) {
+        let len = rng.below(12);
+        let b: Vec<u8> = (0..len).map(|_| if rng.chance(1, 12) { rng.byte() } else { *rng.pick(&[0x20 + (rng.0 as u8 % 0x5F), 0xA0 + ((rng.0 >> 9) as u8 % 0x60)]) }).collect();
+        let r = data::latin1_to_utf8(&b);
+        writeln!(out, "M l2u {} => {}", hex(&b), r.as_ref().map(|s| format!("ok:{}", hex(s.as_bytes()))).unwrap_or("none".into())).unwrap();
+        if let Some(s) = r {
+            let back = data::utf8_to_latin1(&s);
+            writeln!(out, "O eq {} {} => ok", hex(&b), back.map(|v| hex(&v)).unwrap_or("none".into())).unwrap();
+        }
+        let s: String = (0..len).map(|_| rand_char(&mut rng)).collect();
+        let r = data::utf8_to_latin1(&s);
+        writeln!(out, "M u2l {} => {}", hex(s.as_bytes()), r.map(|v| format!("ok:{}", hex(&v))).unwrap_or("none".into())).unwrap();
+    }
+    writeln!(out, "# scalar_values_exhaustive {}", n_scalars).unwrap();
+    writeln!(out, "# random_strings {}", n).unwrap();
+}
